@@ -291,6 +291,27 @@ def c3({inner}): return 0
 @modifiers.kwoargs('o')
 def c1(o, *args, **kwargs): return c3(*args, **kwargs)
 ''', 'c1', None),
+    ('modifiers-stacked', '''
+from sigtools import modifiers
+def c3({inner}): return 0
+@modifiers.posoargs('o')
+@modifiers.kwoargs('k')
+def c1(o, k=1, *args, **kwargs): return c3(*args, **kwargs)
+''', 'c1', None),
+    ('modifiers-stacked-auto', '''
+from sigtools import modifiers
+def c3({inner}): return 0
+@modifiers.posoargs(end='o')
+@modifiers.autokwoargs
+def c1(o, k=1, *args, **kwargs): return c3(*args, **kwargs)
+''', 'c1', None),
+    ('modifiers-annotate', '''
+from sigtools import modifiers
+def c3({inner}): return 0
+@modifiers.annotate(o=int)
+@modifiers.kwoargs('o')
+def c1(o, *args, **kwargs): return c3(*args, **kwargs)
+''', 'c1', None),
     ('forwards_to', '''
 from sigtools import specifiers
 def c3({inner}): return 0
@@ -355,7 +376,7 @@ def check_retrieval(tname, inner, mid, outer, stats):
                 c3 = g['c3']
                 if c3 in depths and depths[c3] != 1:
                     stats.fail('C08/retrieval/min-depth', dict(case, via=label), '%s: c3 is reachable at depth 1 and 2, recorded depth %d' % (desc, depths[c3]))
-            if tname == 'modifiers':
+            if tname.startswith('modifiers'):
                 raw = obj.func
                 listed = set()
                 for n in sig.parameters:
